@@ -106,6 +106,7 @@ func (s *generateState) generateType(t schema.Type, selections []ast.Selection, 
 		}
 	case *schema.ObjectType, *schema.InterfaceType, *schema.UnionType:
 		fields := map[string]string{}
+		selections = mergeInlineFragments(selections, t.(schema.NamedType).TypeName())
 
 		// the Go name of the field that holds __typename (it may be selected under an alias)
 		typenameField := ""
@@ -301,6 +302,37 @@ func (s *generateState) generateType(t schema.Type, selections []ast.Selection, 
 	}
 
 	return ret, nil
+}
+
+// mergeInlineFragments merges the inline fragments of a selection set that have the same type
+// condition, the way execution merges their fields, so that one struct member holds the
+// selections of all of them. A fragment without a type condition is on the enclosing type.
+func mergeInlineFragments(selections []ast.Selection, enclosingType string) []ast.Selection {
+	var ret []ast.Selection
+	index := map[string]int{}
+	for _, sel := range selections {
+		frag, ok := sel.(*ast.InlineFragment)
+		if !ok {
+			ret = append(ret, sel)
+			continue
+		}
+		cond := enclosingType
+		if frag.TypeCondition != nil {
+			cond = frag.TypeCondition.Name.Name
+		}
+		if i, ok := index[cond]; ok {
+			prev := ret[i].(*ast.InlineFragment)
+			prev.SelectionSet.Selections = append(prev.SelectionSet.Selections, frag.SelectionSet.Selections...)
+			continue
+		}
+		merged := *frag
+		merged.SelectionSet = &ast.SelectionSet{
+			Selections: append([]ast.Selection(nil), frag.SelectionSet.Selections...),
+		}
+		index[cond] = len(ret)
+		ret = append(ret, &merged)
+	}
+	return ret
 }
 
 func generateTypeDef(name, original string) string {
